@@ -56,6 +56,10 @@ def shards(tier, seed):
     for kind, a, b in twin_pairs(tier):
         out.append(("twins", kind, a, b))
         out.append(("twins", kind, b, a))
+    # array classes whose static extents were given as numpy integers: fields / items behind such an array
+    Sc, St, Arr, STR = xt.Sc, xt.St, xt.Arr, xt.STR
+    out.append(("np-extents", [St(Arr(Sc("f64"), (3,)), Sc("f64")), St(Arr(Sc("i8"), (3,)), Sc("i64"), STR), St(Sc("i8"), Arr(universe.S_S, (2,)), Sc("f32")),
+                               Arr(Arr(Sc("i8"), (3,)), (2,)), St(Arr(Sc("f64"), (2, 3)), Arr(Sc("i16"), (None,)), Sc("u8"))]))
     return out
 
 
@@ -78,7 +82,7 @@ def check_object(t, v, obj, ctx, res, vmode):
             return
         sigs.add(key)
         f = dict(f0, action=action, last_kind=lt[0] if lt else None, n_index=len(idx), through_ref="*" in vpath, path_len=len(vpath))
-        out.append(common.violation("C02." + action, failure, f, dict(type=t, type_str=xt.show(t), vmode=vmode, vpath=common.jsonable(list(vpath)), index=list(idx), action=action), detail))
+        out.append(common.violation("C02." + action, failure, f, dict(type=t, type_str=xt.show(t), vmode=vmode, vpath=common.jsonable(list(vpath)), index=list(idx), action=action, decl=xt.DECL[0]), detail))
 
     def one_call(ci, c, ncalls):
         if ncalls and ci == ncalls // 2 and ci > 0:
@@ -158,6 +162,9 @@ def run_twins(shard, tier, seed):
 def run_shard(types, tier, seed):
     if types and types[0] == "twins":
         return run_twins(types, tier, seed)
+    if types and types[0] == "np-extents":
+        xt.DECL[0] = "np-extents"  # this process only
+        types = types[1]
     res = common.ShardResult()
     try:
         ctx, kernels = cseam.build_module(types)
@@ -213,6 +220,7 @@ def on_crash(res, shard, exitcode, crumb):
 
 def replay(case):
     t = xt.retuple(case["type"])
+    xt.DECL[0] = case.get("decl", "index")
     res = common.ShardResult()
     ctx, _ = cseam.build_module([t])
     v = xt.gen(t, case.get("vmode", "ramp"))
